@@ -42,6 +42,13 @@ use std::{
 mod protocol;
 mod x25519_spec;
 
+/// Verification seam: the crypto resolver used for the Noise handshake, so that an external harness can
+/// build a `snow` peer with the same primitives.
+#[cfg(litep2p_verif)]
+pub mod verif {
+    pub use super::protocol::Resolver;
+}
+
 mod handshake_schema {
     include!(concat!(env!("OUT_DIR"), "/noise.rs"));
 }
